@@ -645,9 +645,9 @@ func shrinkC07(c *Ctx, sc *Scenario, v *Violation, judge Judge) (*Scenario, *Vio
 func checkC07(tier string) {
 	c := newCtx("C07", tier, "fc")
 	pkgAllFoi = mustRead(filepath.Join(c.B.Repo, "pkg", "pkg_all.foi"))
-	nGen, nCorpus := 2500, 24
+	nGen, nCorpus := 8000, 60
 	if tier != "quick" {
-		nGen, nCorpus = 60000, 400
+		nGen, nCorpus = 150000, 800
 	}
 	self := corpusSelfBuild(c.B.Repo)
 	corpusProgs := []*Program{self}
